@@ -84,8 +84,12 @@ def generate(tier, seed, gated=frozenset()):
             feats = []
             if any(e["op"] == "attr" for e in evs):
                 feats.append("attr_only_update")
+            # the same function may also carry a periodic time trigger that comes due while holds are pending: the two must not
+            # interfere (its instants are off the grid of the state changes and of the hold periods)
+            companion = form == "dec" and rng.random() < 0.3
             for legacy in (False, True):
                 yield {
+                    "companion": companion,
                     "cfg": cfg,
                     "events": evs,
                     "call_at": call_at,
@@ -109,7 +113,8 @@ def render_script(case):
         kws.append(f"state_hold_false={cfg['hold_false']!r}")
     if cfg["form"] == "dec":
         kws.append("kwargs={'dec': 0}")
-        return f"@state_trigger({EXPR!r}, {', '.join(kws)})\ndef f(**kw):\n    vf.rec('run', kw=kw)\n"
+        comp = "@time_trigger('period(now + 0.7s, 1.3s)', kwargs={'dec': 'time'})\n" if case.get("companion") else ""
+        return f"{comp}@state_trigger({EXPR!r}, {', '.join(kws)})\ndef f(**kw):\n    vf.rec('run', kw=kw)\n"
     if case["timeout"] is not None:
         kws.append(f"timeout={case['timeout']!r}")
     return (
@@ -279,8 +284,23 @@ def run_case(case):
 
     w, _ = run_world(main, files={"c05.py": script}, legacy=case["legacy"], tick=case["tick"], pre_setup=pre, keep=True)
     viol = []
+    companion_obs = int(bool(case.get("companion")))
     if cfg["form"] == "dec":
-        got = [{"t": r["t"] - w.epoch, "kw": r["kw"]} for r in w.rec if r["tag"] == "run"]
+        got = [{"t": r["t"] - w.epoch, "kw": r["kw"]} for r in w.rec if r["tag"] == "run" and r["kw"].get("dec") != "time"]
+        if case.get("companion"):
+            tr = [r["t"] - w.epoch for r in w.rec if r["tag"] == "run" and r["kw"].get("dec") == "time"]
+            end = max([e["t"] for e in case["events"]] + [0]) + 8.0
+            want = []
+            k = 0
+            cut = end - 1.0  # (the last period before the run ends is not judged)
+            while any(abs(0.7 + 1.3 * j - cut) < 0.2 for j in range(60)):
+                cut -= 0.25
+            while 0.7 + 1.3 * k <= cut:
+                want.append(0.7 + 1.3 * k)
+                k += 1
+            tr = [x for x in tr if x <= cut]
+            if len(tr) != len(want) or any(abs(a - b) > 0.06 for a, b in zip(tr, want)):
+                viol.append({"mech": "time_trigger_disturbed_by_state_hold", "msg": f"cfg={cfg} legacy={case['legacy']}: time trigger period(now+0.7s, 1.3s) ran at {[round(x, 3) for x in tr][:12]}, expected {[round(x, 3) for x in want][:12]} ({len(tr)} vs {len(want)} runs)"})
     else:
         calls = [r for r in w.rec if r["tag"] == "call"]
         rets = [r for r in w.rec if r["tag"] == "ret"]
@@ -321,6 +341,7 @@ def run_case(case):
             "holds_started": stats["holds"],
             "false_holds_started": stats["false_holds"],
             "evaluations_modelled": stats["evals"],
+            "companion_time_trigger_cases": companion_obs,
             "legacy_cases": int(case["legacy"]),
             "default_cases": int(not case["legacy"]),
         },
